@@ -124,6 +124,10 @@ impl Model {
                 return Err(Fail::new("duplicate_addresses", format!("two connected clients share address {a}")));
             }
         }
+        let it: Vec<u64> = s.clients_id_iter().collect();
+        if it != ids || s.clients_slot().len() != ids.len() {
+            return Err(Fail::new("count_mismatch", format!("clients_id() = {ids:?}, clients_id_iter() = {it:?}, clients_slot() = {:?}", s.clients_slot())));
+        }
         if s.connected_clients() != ids.len() {
             return Err(Fail::new("count_mismatch", format!("connected_clients() = {}, clients_id() has {}", s.connected_clients(), ids.len())));
         }
